@@ -121,7 +121,15 @@ impl AffineRepr for AffinePoint {
     }
 
     fn from_random_bytes(bytes: &[u8]) -> Option<Self> {
-        EdwardsAffine::from_random_bytes(bytes).map(|inner| AffinePoint { inner })
+        // An arbitrary curve point need not represent a decaf377 element (half of
+        // the curve points lie outside the group).  Doubling maps every curve
+        // point into the image of the isogeny, i.e. to a valid representative.
+        EdwardsAffine::from_random_bytes(bytes).map(|inner| {
+            let doubled: EdwardsProjective = inner.into_group().double();
+            AffinePoint {
+                inner: doubled.into(),
+            }
+        })
     }
 
     fn mul_bigint(&self, other: impl AsRef<[u64]>) -> Self::Group {
